@@ -17,8 +17,8 @@ calls sprinkled in) plus several operation sequences, each run on a fresh reader
                (`zlib.decompressobj` on 8192-byte raw blocks, empty chunks kept).
 * regimes    : `segs` payloads = segments whose compression ratios differ by orders of magnitude (noise about 1, 16-symbol
                noise about 2, text about 5, periodic data and runs of one byte up to about 1000) with the dominating segment at
-               the start, in the middle, at the END of the stream or alone; a handful of payloads of 1.1 to 2.6 MiB (thorough: more of them;
-               up to 4 MiB) whose single raw block inflates to megabytes. The driver gets such payloads as a compact
+               the start, in the middle, at the END of the stream or alone; a handful of payloads of 1.1 to 2.6 MiB (thorough: more of them)
+               whose single raw block inflates to megabytes. The driver gets such payloads as a compact
                description (`@LEN*PATTERN,…`) that both sides expand.
 * trailing   : bytes after the end-of-stream marker (zero padding, random bytes, little-endian integers that look like a
                size field): the standard decoders stop at the marker, the reference stream stays io.BytesIO(payload); extra
